@@ -228,7 +228,7 @@ theorem latexError_spec (hw : T.WFInv) (err : Str) (pos : Nat) (st : PState) (hp
 theorem G_diags (nroot : Nat) (st : PState) (d : List Diag) (h : G T nroot st) :
     G T nroot { st with diags := d } := by
   exact { flows := h.flows, macros := h.macros, envs := h.envs, gloss := h.gloss,
-          items := h.items, langs := h.langs, rots := h.rots,
+          items := h.items, langs := h.langs, rots := h.rots, unk := h.unk,
           root := h.root, inFrame := h.inFrame }
 
 /-! ### argument collection -/
@@ -822,7 +822,7 @@ theorem parseDefMacro_spec (hw : T.WFInv) (nroot : Nat) (buf : Buf) (start : Nat
               exact ⟨hgs, OL_single T _ _ (OTok_mkAction T _ start hs), h3⟩
             · obtain ⟨hgs, hsame⟩ := Basic_Good_of_diags T nroot st s hg hd
               refine ⟨{ flows := hgs.flows, macros := ?_, envs := hgs.envs, gloss := hgs.gloss,
-                        items := hgs.items, langs := hgs.langs, rots := hgs.rots,
+                        items := hgs.items, langs := hgs.langs, rots := hgs.rots, unk := hgs.unk,
                         root := hgs.root, inFrame := hgs.inFrame }, hsame⟩
               intro m hm
               simp only [List.mem_append] at hm
@@ -1473,7 +1473,7 @@ theorem initExtractions_G0 (hw : T.WFInv)
     (nroot : Nat) (st : PState) (ex : List Str) (h : G0 T nroot st) :
     G0 T nroot (initExtractions T st ex) := by
   refine { flows := h.flows, macros := ?_, envs := h.envs, gloss := h.gloss,
-           items := h.items, langs := h.langs, rots := h.rots }
+           items := h.items, langs := h.langs, rots := h.rots, unk := h.unk }
   intro m hm
   simp only [initExtractions, List.mem_append, List.mem_map] at hm
   rcases hm with (⟨m0, hm0, rfl⟩ | ⟨nm, _, rfl⟩) | hm
